@@ -161,17 +161,27 @@ func init() {
 				}
 			}
 		}
+		// exact replay (-case): the recorded case (archive + fault position) takes the last slot and is run first, alone
+		replayIdx := -1
+		var rc UCase
+		if loadReplayInput(cfg, "unpack-faults", &rc) {
+			if why := prepareReplayedUCase(&rc, filepath.Join(work, fmt.Sprintf("f%07d", len(jobs))), work); why != "" {
+				rep.ReplayNote("refused: " + why)
+			} else if j, why := faultJobOf(&rc); why != "" {
+				rep.ReplayNote(why)
+			} else {
+				jobs = append(jobs, job{c: j.c, es: j.es, data: j.data, fault: j.fault, failAt: j.failAt, hard: j.hard, full: j.full})
+				replayIdx = len(jobs) - 1
+			}
+		} else {
+			replayMissing(cfg, rep, "unpack-faults")
+		}
 		reqs := make([]string, len(jobs))
 		impl := make([]string, len(jobs))
 		human := make([]interface{}, len(jobs))
 		var wg sync.WaitGroup
 		sem := make(chan struct{}, 16)
-		for i := range jobs {
-			wg.Add(1)
-			sem <- struct{}{}
-			go func(i int) {
-				defer wg.Done()
-				defer func() { <-sem }()
+		runJob := func(i int) {
 				j := jobs[i]
 				arena := filepath.Join(work, fmt.Sprintf("f%07d", i))
 				defer os.RemoveAll(arena)
@@ -220,6 +230,22 @@ func init() {
 				if d := diffOutside(before, after, j.c.Dst); d != "" {
 					rep.AddOracle(OracleFailure{Property: "C01", Lane: "unpack-faults", What: "outside dst under " + j.c.Fault + ": " + d, Input: j.c, ReqIdx: i + 1})
 				}
+		}
+		if replayIdx >= 0 {
+			rep.BeginReplay()
+			runJob(replayIdx)
+			rep.EndReplay(reqs[replayIdx])
+		}
+		for i := range jobs {
+			if i == replayIdx {
+				continue
+			}
+			wg.Add(1)
+			sem <- struct{}{}
+			go func(i int) {
+				defer wg.Done()
+				defer func() { <-sem }()
+				runJob(i)
 			}(i)
 		}
 		wg.Wait()
@@ -240,6 +266,43 @@ func init() {
 		rep.Exhaustive = cfg.Tier == "thorough"
 		rep.Compare(cfg.Driver, rq, im, hu)
 	}
+}
+
+// faultJobOf rebuilds a job of this lane from a recorded case: its Fault field says where the stream fails
+// ("tar-cut@K": the tar stream ends after K bytes; "gzip-true@K" / "gzip-false@K": the gzip stream
+// fails with an error / ends cleanly at offset K).
+type faultJob struct {
+	c      *UCase
+	es     []UEntry
+	data   []byte
+	fault  string
+	failAt int
+	hard   bool
+	full   []UEntry
+}
+
+func faultJobOf(c *UCase) (*faultJob, string) {
+	l := buildTarLayout(c.Entries)
+	if l == nil {
+		return nil, "the recorded archive cannot be written as a tar stream"
+	}
+	var k int
+	var hard bool
+	if n, _ := fmt.Sscanf(c.Fault, "tar-cut@%d", &k); n == 1 {
+		if k < 0 || k > len(l.data) {
+			return nil, "recorded cut position " + c.Fault + " is beyond the tar stream"
+		}
+		des, fault := decodeWithFault(l.data[:k])
+		return &faultJob{c: c, es: des, data: gz(l.data[:k]), fault: fault, failAt: -1, full: c.Entries}, ""
+	}
+	if n, _ := fmt.Sscanf(c.Fault, "gzip-%t@%d", &hard, &k); n == 2 {
+		full := gz(l.data)
+		if k < 0 || k > len(full) {
+			return nil, "recorded fault position " + c.Fault + " is beyond the gzip stream"
+		}
+		return &faultJob{c: c, es: c.Entries, data: full, failAt: k, hard: hard, full: c.Entries}, ""
+	}
+	return nil, fmt.Sprintf("the recorded case has no fault position of this lane (fault %q)", c.Fault)
 }
 
 func sameNodes(a, b []FSNode) bool {
